@@ -66,7 +66,10 @@ def check_il(ctx, p, res, what, src=None, target=None, with_clang=False):
         return None
     mod, errs = ilcheck.validate(p.out)
     if errs:
-        res.fail = dict(sig="il:" + errs[0].split(":")[-1].strip()[:40], msg="%s: malformed IL module:\n  %s" % (what, "\n  ".join(errs[:8])),
+        sig = "il:" + errs[0].split(":")[-1].strip()[:40]
+        if all("local symbol $.L__func__." in e for e in errs):
+            sig = "func-name-in-static-initializer"      # recorded finding
+        res.fail = dict(sig=sig, msg="%s: malformed IL module:\n  %s" % (what, "\n  ".join(errs[:8])),
                         il=p.out[:6000].decode("latin-1"))
         return None
     try:
